@@ -3,6 +3,7 @@ against a real file and acknowledges every returned logging call on stdout.
 
 usage: python -m lib.crash_child <case.json> <logfile> <repeats>"""
 import json
+import os
 import sys
 import warnings
 
@@ -13,7 +14,7 @@ def main():
     path, repeats = sys.argv[2], int(sys.argv[3])
     from lib import progs
     case = dict(case)
-    case["pre"] = [["add", [[9, ["realfile", path], {"id": 0, "cls": 15, "text": 1, "sr": False}]]]]
+    case["pre"] = [["add", [[9, ["realfile", path] + (["text"] if case.get("textfile") else []), {"id": 0, "cls": 15, "text": 1, "sr": False}]]]]
     it = progs.Interp(case)
     for o in case["pre"]:
         it.preop(o)
@@ -22,7 +23,7 @@ def main():
 
     def on_return():
         # bytes on disk when this logging call returned: everything written so far is flushed
-        out.write("%d\n" % it.realfile.tell())
+        out.write("%d\n" % os.fstat(it.realfile.fileno()).st_size)
         out.flush()
     it.on_return = on_return
     out.write("ready\n")
